@@ -82,6 +82,26 @@ def run(ck, prog, tier, load):
     nc = [(bb, t) for bb, t in up.calls(r"ResponseHead::no_chunking$")]
     ok = bool(nc) and all(up.op_expr(t["args"][1])[:3] == ("const", None, 0) for bb, t in nc) and up.must_pass([0], up.returns(), [bb for bb, t in nc])[0]
     ck.ob("C13-c.length-not-stale", "update_head", ok, up, nc[0][0] if nc else None, "update_head re-enables chunked framing (no_chunking(false)) on every path: a length the handler announced for the uncoded body is not sent with the coded one")
+    # a length header the handler set for the uncoded body (HttpResponseBuilder::no_chunking(len), insert_header)
+    # is dropped by the h1 writer only because chunked framing is re-enabled; the h2 writer copies a
+    # user Content-Length whenever the size is Stream. So whoever installs the encoder must remove it.
+    def removes_cl(b):
+        sites = [bb for bb, t in b.calls(r"HeaderMap::remove$") if any(e_has_const(b.op_expr(a_), r"CONTENT_LENGTH$") for a_ in t["args"][1:])]
+        return sites
+    rm = removes_cl(up)
+    ok = bool(rm) and up.must_pass([0], up.returns(), rm)[0]
+    where = "update_head"
+    if not ok:
+        # accepted alternatives: Encoder::response itself does it before update_head, or every caller does
+        rm2 = removes_cl(resp)
+        if rm2 and all(any(resp.dominates(r_, u) for r_ in rm2) for u in uh):
+            ok, where = True, "Encoder::response"
+        else:
+            callers = [b for b, bb, t in prog.callers(r"^actix_http::encoding::encoder::Encoder<B>::response$") if "test" not in b.npath]
+            if callers and all(removes_cl(b) or any(removes_cl(c_) for c_ in prog.with_closures(b)) for b in callers):
+                ok, where = True, "every caller of Encoder::response"
+    ck.ob("C13-c.user-length-removed", "update_head", ok, up, rm[0] if rm else None,
+          "whenever an encoder is installed, a Content-Length header set by the handler for the uncoded body is removed (%s); the h2 response writer copies a user Content-Length for a Stream body, so nothing else drops it" % (where if ok else "found in neither update_head, Encoder::response nor all its callers"))
     sz = prog.one(r"^<actix_http::encoding::encoder::Encoder<B> as actix_http::body::message_body::MessageBody>::size$")
     st = [bb for bb, e in sz.ret_exprs() if is_agg(e, r"BodySize::Stream$")]
     ok = bool(st) and all(any(strip_not(c)[0][0] == "call" and rx(r"Option.*::is_some$").search(strip_not(c)[0][1] or "") and e_has_field(c, r"Encoder\.encoder$") and (l if strip_not(c)[1] else not l) is True for c, l, a in sz.guards(bb) if isinstance(l, bool)) for bb in st)
